@@ -932,13 +932,23 @@ func e2AllGoroutines() []e2Goroutine {
 // a refinery function), or until the set of such goroutines has been the same
 // for a long series of polls (fixpoint): those are returned.
 func (c *e2Cluster) LeftoverGoroutines() []e2Goroutine {
+	return c.LeftoverGoroutinesWhere(func(g e2Goroutine) bool { return g.Refinery != "" })
+}
+
+// LeftoverGoroutinesWhere is LeftoverGoroutines for an arbitrary class of
+// goroutines (additive): goroutines started since the cluster was built for
+// which match is true are polled to a fixpoint in the same way. Use it for
+// goroutines Refinery starts inside libraries (e.g. CreatedBy
+// "github.com/honeycombio/dynsampler-go.(*X).Start"), which have no frame in a
+// /repo package.
+func (c *e2Cluster) LeftoverGoroutinesWhere(match func(g e2Goroutine) bool) []e2Goroutine {
 	var last []e2Goroutine
 	lastKey := ""
 	same := 0
 	for poll := 0; poll < 1500; poll++ {
 		var cur []e2Goroutine
 		for _, g := range e2AllGoroutines() {
-			if c.baseline[g.ID] || g.Refinery == "" {
+			if c.baseline[g.ID] || !match(g) {
 				continue
 			}
 			cur = append(cur, g)
